@@ -74,14 +74,14 @@ structure PackState where
 def paxXattr (k : Str) : Str := k
 
 /-- `tarAppender.addTarFile(path, name)`; `none` = the entry is left out (error logged) -/
-def addTarFileP (o : PackOpts) (st : PackState) (path name : Str) : Prog PackState := do
-  let r ← sys (.lstat path)
+def addTarFileP (o : PackOpts) (st : PackState) (path name : Str) : RProg PackState := do
+  let r ← rsys (.lstat path)
   match r with
   | .stat s =>
-    let linkR ← (if s.kind == .sym then sys (.readlink path) else pure (.str []))
+    let linkR ← (if s.kind == .sym then rsys (.readlink path) else pure (.str []))
     match linkR with
     | .str link =>
-      let capR ← sys (.getxattr path capKey)
+      let capR ← rsys (.getxattr path capKey)
       let xattrs : List (Str × List UInt8) := match capR with
         | .data c => [(capKey, capForHeader c)]
         | _ => []
@@ -119,7 +119,7 @@ def addTarFileP (o : PackOpts) (st : PackState) (path name : Str) : Prog PackSta
           if s.kind != .dir then
             emitP o st1 path hdr3
           else do
-            let oq ← sys (.getxattr path o.opaqueXattr)
+            let oq ← rsys (.getxattr path o.opaqueXattr)
             match oq with
             | .data v =>
               if v = [121] then
@@ -135,9 +135,9 @@ def addTarFileP (o : PackOpts) (st : PackState) (path name : Str) : Prog PackSta
   | _ => pure st
 where
   /-- write the header and, for a non-empty regular file, its body -/
-  emitP (_o : PackOpts) (st : PackState) (path : Str) (hdr : Entry) : Prog PackState := do
+  emitP (_o : PackOpts) (st : PackState) (path : Str) (hdr : Entry) : RProg PackState := do
     if hdr.typ == .reg && hdr.size > 0 then
-      let d ← sys (.readFile path)
+      let d ← rsys (.readFile path)
       match d with
       | .data bytes => pure { st with out := { hdr with body := bytes } :: st.out }
       | _ => pure { st with out := hdr :: st.out }
@@ -153,7 +153,7 @@ structure WalkSt where
 def hasExclusions (o : PackOpts) : Bool := o.pats.any (·.excl)
 
 /-- the walk callback of `Tarballer.Do` for one include over the pre-order listing -/
-def walkP (o : PackOpts) (src inc : Str) : List (Str × Kind × Nat) → WalkSt → PackState → Prog PackState
+def walkP (o : PackOpts) (src inc : Str) : List (Str × Kind × Nat) → WalkSt → PackState → RProg PackState
   | [], _, st => pure st
   | (filePath, kind, depth) :: rest, ws0, st =>
     if (match ws0.skipDepth with | some sd => decide (depth > sd) | none => false) then walkP o src inc rest ws0 st
@@ -190,10 +190,10 @@ def walkP (o : PackOpts) (src inc : Str) : List (Str × Kind × Nat) → WalkSt 
               | none => relp
             .bind (addTarFileP o st1 filePath name) (fun st2 => walkP o src inc rest ws1 st2)
 
-def includesP (o : PackOpts) (src : Str) : List Str → PackState → Prog PackState
+def includesP (o : PackOpts) (src : Str) : List Str → PackState → RProg PackState
   | [], st => pure st
   | inc :: incs, st => do
-    let t ← sys (.listTree (getWalkRoot src inc))
+    let t ← rsys (.listTree (getWalkRoot src inc))
     match t with
     | .tree items =>
       let st1 ← walkP o src inc items {} st
@@ -207,8 +207,8 @@ def splitPathDirEntry (path : Str) : Str × Str :=
   (dir c', base c')
 
 /-- `Tarballer.Do` (after `NewTarballer`): the list of entries written to the stream -/
-def tarP (src : Str) (o : PackOpts) : Prog (List Entry) := do
-  let r ← sys (.lstat src)
+def tarR (src : Str) (o : PackOpts) : RProg (List Entry) := do
+  let r ← rsys (.lstat src)
   match r with
   | .stat s =>
     let (src1, incs) : Str × List Str :=
@@ -219,6 +219,9 @@ def tarP (src : Str) (o : PackOpts) : Prog (List Entry) := do
     let st ← includesP o src1 incs {}
     pure st.out.reverse
   | _ => pure []
+
+/-- `Tarballer.Do` as a general program -/
+def tarP (src : Str) (o : PackOpts) : Prog (List Entry) := (tarR src o).toProg
 
 /-- `chrootarchive.Tar(srcPath, options, root)` : invokePack keeps a trailing slash, doPack jails the walk -/
 def chrootTarP (src root : Str) (o : PackOpts) : Prog (Option (List Entry)) :=
